@@ -1,0 +1,29 @@
+//! Verification hook (compiled only with `--cfg libp2p_verif`): a read-only snapshot of the
+//! behaviour's bookkeeping sets.  Calls nothing and changes nothing.
+use libp2p_identity::PeerId;
+use libp2p_swarm::ConnectionId;
+
+use crate::Behaviour;
+
+/// The five id sets of [`Behaviour`], in unspecified order.
+pub struct Snapshot {
+    pub pending_inbound: Vec<ConnectionId>,
+    pub pending_outbound: Vec<ConnectionId>,
+    pub established_inbound: Vec<ConnectionId>,
+    pub established_outbound: Vec<ConnectionId>,
+    pub established_per_peer: Vec<(PeerId, Vec<ConnectionId>)>,
+}
+
+pub fn snapshot(b: &Behaviour) -> Snapshot {
+    Snapshot {
+        pending_inbound: b.pending_inbound_connections.iter().copied().collect(),
+        pending_outbound: b.pending_outbound_connections.iter().copied().collect(),
+        established_inbound: b.established_inbound_connections.iter().copied().collect(),
+        established_outbound: b.established_outbound_connections.iter().copied().collect(),
+        established_per_peer: b
+            .established_per_peer
+            .iter()
+            .map(|(p, s)| (*p, s.iter().copied().collect()))
+            .collect(),
+    }
+}
